@@ -217,11 +217,85 @@ func runC07(o *cli.Opts, run *evid.Run) {
 	}
 	cli.ForEach(len(ijobs), 6, func(i int) { ijobs[i]() })
 	run.Stage("invalid")
+	// concurrent twins: a valid batch and an invalid one with the same public fields and input hash
+	// (Merkle proofs are not hashed) proved at the same time on the same system
+	for _, s := range systems {
+		if s == nil || s.tag != "A" || s.d > 5 {
+			continue
+		}
+		for k := 0; k < o.Pick(3, 12); k++ {
+			c07Twins(o, run, s, k)
+		}
+	}
+	run.Stage("twins")
 	run.Require("valid batches proved", run.ClassTally("prove/valid/insertion").Accepted+run.ClassTally("prove/valid/deletion").Accepted, 8)
 	run.Require("proof checked under the other mode's system", run.ClassTally("verify/other-mode-system").Cases, 4)
 	run.Require("proof checked under an independent setup", run.ClassTally("verify/independent-setup").Cases, 4)
 	run.Require("invalid batches refused", run.GetInt("invalid_refused"), 20)
 	run.Require("wrong-dimension parameter sets", run.GetInt("shape_cases"), 10)
+	run.Require("concurrent same-hash twin pairs", run.GetInt("twin_pairs"), 4)
+}
+
+func c07Twins(o *cli.Opts, run *evid.Run, s *c07System, k int) {
+	key := fmt.Sprintf("C07/%s/d=%d/b=%d/twins/%d", s.mode, s.d, s.b, k)
+	if !run.Wants(key) {
+		return
+	}
+	r := gen.RNG(o.Seed, key)
+	type res struct {
+		proof *prover.Proof
+		err   error
+	}
+	var good, bad res
+	var hash *big.Int
+	var wg sync.WaitGroup
+	start := make(chan struct{})
+	if s.mode == "insertion" {
+		c := sysutil.ValidIns(r, s.d, s.b)
+		p := sysutil.InsParams(c)
+		hash = p.InputHash
+		twin := *p
+		twin.Proofs = make([][]*big.Int, len(p.Proofs))
+		for i := range p.Proofs {
+			twin.Proofs[i] = append([]*big.Int{}, p.Proofs[i]...)
+		}
+		twin.Proofs[r.Intn(s.b)][r.Intn(s.d)] = gen.Below(r, ref.R)
+		if ref.ValidInsertion(ref.H2, ref.R, s.d, c.Start, twin.Pre, twin.Post, twin.Ids, twin.Proofs) {
+			return
+		}
+		wg.Add(2)
+		go func() { defer wg.Done(); <-start; good.proof, good.err = s.ps.ProveInsertion(conv.ToRepoIns(p)) }()
+		go func() { defer wg.Done(); <-start; bad.proof, bad.err = s.ps.ProveInsertion(conv.ToRepoIns(&twin)) }()
+	} else {
+		c := sysutil.ValidDel(r, s.d, s.b)
+		p := sysutil.DelParams(c)
+		hash = p.InputHash
+		twin := *p
+		twin.Ids = append([]*big.Int{}, p.Ids...)
+		twin.Ids[r.Intn(s.b)] = gen.Below(r, ref.R) // identity commitments are not hashed in deletion mode
+		if ref.ValidDeletion(ref.H2, ref.R, s.d, c.Indices, twin.Pre, twin.Post, twin.Ids, twin.Proofs) {
+			return
+		}
+		wg.Add(2)
+		go func() { defer wg.Done(); <-start; good.proof, good.err = s.ps.ProveDeletion(conv.ToRepoDel(p)) }()
+		go func() { defer wg.Done(); <-start; bad.proof, bad.err = s.ps.ProveDeletion(conv.ToRepoDel(&twin)) }()
+	}
+	close(start)
+	wg.Wait()
+	ok := true
+	if good.err != nil || good.proof == nil {
+		ok = false
+		run.Violate(key+"/valid", fmt.Sprintf("a valid batch proved concurrently with an invalid batch of the same input hash failed: %v", good.err), nil)
+	} else if e := sysutil.Verify(ref.GetPoints(good.proof.Proof), s.ps.VerifyingKey, hash); e != nil {
+		ok = false
+		run.Violate(key+"/valid", "the proof of the valid twin does not verify: "+e.Error(), nil)
+	}
+	if bad.err == nil || bad.proof != nil {
+		ok = false
+		run.Violate(key+"/invalid", "an invalid batch proved concurrently with a valid batch of the same input hash received a proof / no error", nil)
+	}
+	run.Add("twin_pairs", 1)
+	run.Case("prove/concurrent-twins/"+s.mode, true, key, ok, map[string]any{"mode": s.mode, "depth": s.d, "batch": s.b, "input_hash": ref.Num(hash, "hex")})
 }
 
 func mustRefuse(run *evid.Run, key, class string, proof *prover.Proof, err error, sample any) {
